@@ -1,5 +1,6 @@
 import Driver.Util
 import QsmtpModel.Spf.Core
+import QsmtpModel.Spf.Txt
 import QsmtpModel.Spec.SpfRfc
 open QsmtpModel QsmtpModel.Spf
 namespace Driver.Ops.Spf
@@ -173,6 +174,13 @@ def handleCore (op : String) (args : List String) : Option String :=
     some (match fromHex ip, fromHex net, m.toNat? with
     | some ip, some net, some m => if ip6Matchnet ip net m then "1" else "0"
     | _, _, _ => "bad-op")
+  | "txtrdata", rds =>
+    -- the records dnstxt_records() hands out for the given RDATAs (hex, '-' = empty RDATA)
+    let recs := rds.map fun h => (if h = "-" then some [] else fromHex h).map QsmtpModel.Spf.Txt.txtRecord
+    if recs.all Option.isSome then
+      let rs := recs.filterMap id
+      some (s!"r={rs.length} " ++ ",".intercalate (rs.map fun r => if r.isEmpty then "-" else toHex r))
+    else none
   | "spf_domainvalid", [t] =>
     some (match fromHex t with | some t => (if domainvalid t then "0" else "1") | none => "bad-op")
   | "chk_spf", _ =>
